@@ -35,11 +35,11 @@ CLAIMS = {
                   "replayed behaviours validated by TLC.",
              ref="§7 C11", technique="TLA+ model checking (TLC) + trace validation of replayed behaviours"),
  "C12": dict(text="Mon_C12 pairs every transmitted fragment with its trigger (sequence correlation incl. deferred READs and series, UNS bit, unsolicited shape and numbering, no-reply functions, size, "
-                  "well-formedness by the independent codec, rejected requests answered with an IIN2 error) in lock-step with Outstation.tla over both input alphabets; replayed behaviours validated by TLC.",
+                  "well-formedness by the independent codec, rejected requests answered with an IIN2 error) in lock-step with Outstation.tla over its input alphabets (events, controls and addressing, freeze / time / broadcast-allowed functions); control requests whose echo outgrows the transmit buffer are executed as well; replayed behaviours validated by TLC.",
              ref="§7 C12", technique="TLA+ model checking (TLC) + trace validation of replayed behaviours"),
  "C06": dict(text="Link.tla models the frame reader at the level of abstract bytes (start-byte classes, frame identity/offset, corruption) exactly as Parser/Reader are written (state carried across reads, "
                   "discard-mode rollback, datagram reset); TLC checks soundness and chunk-independence against the leftmost-first reference scan for every stream of <=4-5 pieces and every split into reads, in three reader modes. "
-                  "TLC-exported (stream, split) pairs are concretised with random fields and replayed on the real link::layer::Layer over a pipe; Mon_C06 judges deliveries, Trace_Link validates them read by read; bit-error sweeps run in bulk.",
+                  "TLC-exported (stream, split) pairs - and 45-frame streams through a one-frame read buffer in equal reads of many sizes - are concretised with random fields and replayed on the real link::layer::Layer over a pipe; Mon_C06 judges deliveries, Trace_Link validates them read by read; bit-error sweeps run in bulk.",
              ref="§7 C06", technique="TLA+ model checking (TLC) + trace validation of replayed behaviours",
              note="Trusted: TLC, Link.tla's abstraction of CRC validity (no accidental collisions; the concretiser re-draws with its own CRC), the harness codec. Frame kinds in the design check: header-only and one short block; lengths 0..250 and contents are swept/sampled by the harness."),
  "C08": dict(text="Transport.tla holds the assembler as built and the property as an automaton over the same segment stream; TLC checks step-wise refinement for every stream over the alphabet (sequence window around the 6-bit wrap, "
@@ -78,7 +78,7 @@ CLAIMS["C09"] = dict(level="other",
          "operators Verdict / ExpCount; TLC enumerates the product space from MC_AppCodec.tla (every known variation and some unknown x every qualifier and some undefined x boundary counts and ranges incl. 0, 255, 256, "
          "65535 and ranges ending at 65535 x READ / non-READ request / response x {one byte short, exact, one byte long}, plus pairs of headers: 48.8 k cases); the harness builds each case into bytes and asks the "
          "library's ParsedFragment::parse, to_request / to_response, the lazy iterators at every decode level and the master's extraction; Mon_C09 (TLC trace validation) compares with the table. Every fragment the real "
-         "outstation and master transmit in model-generated scenarios is additionally parsed by the library in the peer's role and compared with the harness codec.",
+         "outstation and master transmit in model-generated scenarios (incl. multi-fragment static databases and control echoes that outgrow the transmit buffer) is additionally parsed by the library in the peer's role and compared with the harness codec. Device attributes (AttrType) and free-format group 70 objects (FfVerdict: declared length against the size the object implies) are enumerated the same way.",
     ref="§7 C09", technique="TLA+ table specification enumerated by TLC + trace validation of the parser's answers",
     note="Not a transition system: TLC is used as enumerator and as evaluator of the reference operators (the case-analysis use of TLA+). Trusted: AppCodec.tla (a transcription of the IEEE 1815 object library made for this check), "
          "the harness codec. Object contents are random bytes (value fidelity is C10); free-format g70 and attribute g0 objects are not enumerated; quick runs a seeded third of the cases that are neither must-accept nor end-of-range.")
@@ -99,7 +99,7 @@ CLAIMS["C01"] = dict(level="other",
          "(link-level noise, damaged / lying / truncated frames, transport garbage, application fragments of every function code incl. the other role's and undefined ones with every FIR/FIN/CON/UNS shape, object "
          "headers from the AppCodec enumeration, maximum-size and end-of-range requests) x chunkings, with seeded bytes; decode level and link error mode cycled. After the stimulus a probe (link status request, fresh "
          "READ / user request and its answer, on the same or - after a close - a new connection). Mon_C01 (TLC trace validation) rejects panics, watchdog hangs, ended tasks, unanswered probes and sessions closed in "
-         "discard mode.",
+         "discard mode; a READ repeated faster than any session timer must be answered while the repetitions go on (stalled).",
     ref="§7 C01", technique="TLA+ specifications as generators (state cover by TLC, hostile class product by TLC) + trace validation of executions on the real endpoints",
     note="TLC says nothing about byte strings it never names: the bytes of a stimulus class are seeded random draws (exhaustive:false). Trusted: the harness (pipes, paused clock, watchdog). Not varied: rx buffer sizes other "
          "than the defaults; the TCP / serial / TLS physical layers are replaced by an in-memory pipe.")
@@ -109,7 +109,8 @@ CLAIMS["C18"] = dict(
          "outstation's real and reported processing delay, the distance of the master's clock from 2^48-1, an application that still needs time and replies with unexpected objects; TLC checks the accuracy bound and "
          "the success / failure classification for every parameter set of MC_TimeSync (delays 0 .. 70000 ms, equal and asymmetric). Every parameter set is then executed: honest ones by the real master against the real "
          "outstation through a byte-forwarding proxy with scripted virtual delays (harness pair mode), lying / malformed ones by the real master against scripted replies. Mon_C18 (TLC trace validation) compares the time "
-         "handed to OutstationApplication::write_absolute_time with the master's clock at that virtual instant, the reported outcome with the statement, and both with the prediction of TimeSync.tla for the delays observed.",
+         "handed to OutstationApplication::write_absolute_time with the master's clock at that virtual instant, the reported outcome with the statement, and both with the prediction of TimeSync.tla for the delays observed. "
+         "The outstation's side of the LAN procedure is additionally run over every history of RECORD_CURRENT_TIME / byte-identical repetition / pause / WRITE g50v3 up to length 5 (LanExpect).",
     ref="§7 C18", technique="TLA+ model checking (TLC) + trace validation of replayed parameter sets (paired master and outstation)",
     note="Trusted: TLC, TimeSync.tla, the harness proxy and tokio's paused clock. Delays from a boundary set, not all of 0..65535+; the outstation's processing time is applied by the proxy to the reply that reports it; "
          "unrelated traffic interleaved with the procedure is not generated; 3 ms of slack for the harness's settle steps.")
@@ -118,8 +119,8 @@ CLAIMS["C02"] = dict(
     text="System.tla composes master, channel and outstation at the level of the data that flows: database versions, the event buffer with written / unwritten marks and overflow, fragments and confirms in flight, "
          "unsolicited reporting, cuts that lose what is in flight, reconnects with the integrity poll, late timeouts. TLC checks the safety invariants (nothing fabricated or cross-wired, no event released before "
          "it was received, static values never go backwards) and, under weak fairness of the system's actions, the two liveness properties (after the environment stops every point's current value and every event not "
-         "discarded reach the handler). TLC-generated behaviours of the environment (plus directed cuts while a fragment is in flight) are replayed on the real master and the real outstation connected through a proxy "
-         "with seeded one-way delays, re-chunking and cuts (harness pair mode); a sample of the same behaviours also runs on the library's real TCP client and server over the loopback interface with the multi-threaded runtime and the real clock (harness sock mode). Mon_C02 (TLC trace validation) judges the S-trace: every value the ReadHandler received against the update history, convergence and "
+         "discarded reach the handler). TLC-generated behaviours of the environment in three configurations (unsolicited and polls, polls only, unsolicited reporting alone - PollOnlyOnConnect, where the picture must be complete before any further poll), plus directed behaviours (cuts while a fragment is in flight, answers later than the time-outs, updates of every class after the start-up handshake), are replayed on the real master and the real outstation connected through a proxy "
+         "with seeded one-way delays up to beyond the response and confirm time-outs, re-chunking and cuts (harness pair mode); a sample of the same behaviours also runs on the library's real TCP client and server over the loopback interface with the multi-threaded runtime and the real clock (harness sock mode). Mon_C02 (TLC trace validation) judges the S-trace: every value the ReadHandler received against the update history, convergence and "
          "event completeness at the end.",
     ref="§7 C02", technique="TLA+ model checking with liveness (TLC) + trace validation of replayed behaviours (paired master and outstation)",
     note="Trusted: TLC, System.tla (abstracts the protocol to versions, fragments and confirms; bounded constants: 2 points, <= 3 updates, <= 2 cuts, capacity 1-2), the harness proxy. Most executions use in-memory pipes and a current-thread runtime with a paused clock (exact control of what is in flight); the real TCP stack and multi-threaded scheduling are exercised by the "
